@@ -446,6 +446,15 @@ func expandStack(stack []any, mi int) []any {
 	return nstack
 }
 
+// sameValue is left == right except that values of an uncomparable type
+// (slices, maps) are never equal instead of causing a panic.
+func sameValue(left, right any) bool {
+	if rt := reflect.TypeOf(left); rt != nil && !rt.Comparable() {
+		return false
+	}
+	return left == right
+}
+
 func evalStack(sstack []any) []any {
 	for i := len(sstack) - 1; 0 <= i; i-- {
 		o, _ := sstack[i].(*op)
@@ -467,7 +476,7 @@ func evalStack(sstack []any) []any {
 		case group.code:
 			sstack[i] = left
 		case eq.code:
-			if left == right {
+			if sameValue(left, right) {
 				sstack[i] = true
 			} else {
 				sstack[i] = false
@@ -482,7 +491,7 @@ func evalStack(sstack []any) []any {
 				}
 			}
 		case neq.code:
-			if left == right {
+			if sameValue(left, right) {
 				sstack[i] = false
 			} else {
 				sstack[i] = true
@@ -492,8 +501,9 @@ func evalStack(sstack []any) []any {
 						sstack[i] = ok && float64(tl) != tr
 					}
 				case float64:
-					tr, ok := right.(int64)
-					sstack[i] = ok && tl != float64(tr)
+					if tr, ok := right.(int64); ok {
+						sstack[i] = tl != float64(tr)
+					}
 				}
 			}
 		case lt.code:
